@@ -258,7 +258,13 @@ def loraHandleInterrupt : DM Unit := do
   else if value &&& u8 SX127x_IRQ_FLAG_PAYLOAD_CRC_ERROR ≠ 0 then
     modH fun h => { h with curFreq := 0 }
   else if value &&& u8 SX127x_IRQ_FLAG_RXDONE ≠ 0 then do
-    loraRxReadPayload
+    let r ← attempt loraRxReadPayload
+    match r with
+    | .error c => do
+      -- the packet could not be read: the configured length is restored
+      modH fun h' => { h' with expected := h.expected }
+      fail c
+    | .ok () => pure ()
     rxCallback
     modH fun h => { h with expected := 0, curFreq := 0 }
   else if value &&& u8 SX127x_IRQ_FLAG_TXDONE ≠ 0 then do
@@ -361,6 +367,7 @@ def rxSetLnaBoostHf (enable : Bool) : DM Unit :=
 /-- `sx127x_lora_set_bandwidth` -/
 def loraSetBandwidth (bandwidth : Nat) : DM Unit := do
   checkModulation SX127x_MODULATION_LORA
+  if bandwidth % 16 ≠ 0 ∨ bandwidth > SX127x_BW_500000 then fail SX127X_ERR_INVALID_ARG else do
   appendRegister REGMODEMCONFIG1 (u8 bandwidth) 0x0f
   reloadLowDatarateOptimization
 
@@ -368,7 +375,8 @@ def loraSetBandwidth (bandwidth : Nat) : DM Unit := do
 def loraSetModemConfig2 (sf : Nat) : DM Unit := do
   checkModulation SX127x_MODULATION_LORA
   let h ← getH
-  if sf = SX127x_SF_6 ∧ !h.implicitHeader then fail SX127X_ERR_INVALID_ARG else
+  if sf = SX127x_SF_6 ∧ !h.implicitHeader then fail SX127X_ERR_INVALID_ARG else do
+  let _ ← loraGetBandwidth
   let opt : UInt8 := if sf = SX127x_SF_6 then 0xc5 else 0xc3
   let thr : UInt8 := if sf = SX127x_SF_6 then 0x0c else 0x0a
   swrite REGDETECTOPTIMIZE [opt]
@@ -510,7 +518,7 @@ def txSetPaConfig (pin : Nat) (power : Int) : DM Unit := do
   swrite REGPADAC [dac]
   let maxCurrent : UInt8 :=
     if pin = SX127x_PA_PIN_BOOST then (if power = 20 then 120 else 87)
-    else (if power > 7 then 29 else 20)
+    else 45   -- 29 / 20 mA raised to the lowest limit the chip offers
   txSetOcp true maxCurrent
   -- `value` is computed in `int` and truncated to a byte
   let byteOfInt (i : Int) : UInt8 := UInt8.ofNat (i % 256).toNat
@@ -539,18 +547,20 @@ def loraTxSetForTransmission (data : List UInt8) : DM Unit := do
   swrite REGPAYLOADLENGTH [u8 data.length]
   bwrite REGFIFO data
 
-/-- `(uint8_t)(0.95f * ((float) err / (frequency / 1E6f)))` (l.909) -/
-def ppmValue (frequencyError : Int) (frequency : Nat) : Option Nat :=
+/-- `0.95f * ((float) err / (frequency / 1E6f))` -/
+def ppmFloat (frequencyError : Int) (frequency : Nat) : F :=
   let fmhz := F.div b32 (F.ofNat b32 frequency) (f32 1000000)
   let ratio := F.div b32 (F.ofInt b32 frequencyError) fmhz
-  F.toUInt 8 (F.mul b32 (f32 (95/100)) ratio)
+  F.mul b32 (f32 (95/100)) ratio
 
-/-- `sx127x_lora_set_ppm_offset` (after the fix: gated) -/
+/-- `sx127x_lora_set_ppm_offset` (after the fixes: gated, signed byte, range-checked) -/
 def loraSetPpmOffset (frequencyError : Int) : DM Unit := do
   checkModulation SX127x_MODULATION_LORA
   let frequency ← getFrequency
-  match ppmValue frequencyError frequency with
-  | some v => swrite 0x27 [u8 v]
+  let ppm := ppmFloat frequencyError frequency
+  if !(F.gt ppm (.fin (-129)) && F.lt ppm (.fin 128)) then fail SX127X_ERR_INVALID_ARG else
+  match F.toSInt 8 ppm with
+  | some v => swrite 0x27 [UInt8.ofNat (v % 256).toNat]
   | none => ub .castRange
 
 /-- `sx127x_fsk_ook_tx_set_for_transmission_with_remaining` -/
